@@ -750,6 +750,7 @@ def run(eng, rep):
                 "to_dict emits only None/tolist()/int()/float()/str()/nested dict and the replace_nan branch covers the whole dict, "
                 "replace_nan_with_none recurses over dict/list/float; from_dict maps None back to NaN for every float-valued field; "
                 "__str__ applies numeric conversions and len() only to fields that cannot be None; diagnostic columns hold scalars.")
+    rep.explain('Also decided: NaN replacement visits every element of nested containers (C20-2b); table rows are uniquely labelled (C20-5b); no raw callback return value reaches a result field by plain copies (C20-6); integer Model arrays keep an integer dtype at every re-binding, helpers included (dtype inference, C20-7).')
     rep.not_decided += ["what pandas.DataFrame.to_dict/from_dict and json do to index keys and NumPy scalars (library semantics)",
                         "bit-exact equality of reloaded arrays"]
     rule_field_agreement(eng, rep)
